@@ -161,8 +161,10 @@ func (mb *mbox) writeIndex() error {
 			return err
 		}
 		verifPoint("index.mkdir", mb.path)
-		// Open index for writing
-		file, err := os.Create(mb.indexPath)
+		// Write a temporary file and rename it over the index, so that neither a reader nor a
+		// crash ever sees a truncated or partial index.
+		tmpPath := mb.indexPath + ".tmp"
+		file, err := os.Create(tmpPath)
 		if err != nil {
 			return err
 		}
@@ -192,6 +194,9 @@ func (mb *mbox) writeIndex() error {
 			return err
 		}
 		verifPoint("index.closed", mb.indexPath)
+		if err := os.Rename(tmpPath, mb.indexPath); err != nil {
+			return err
+		}
 	} else {
 		// No messages, delete index+maildir
 		log.Debug().Str("module", "storage").Str("path", mb.path).Msg("Removing mailbox")
@@ -215,6 +220,11 @@ func (mb *mbox) createDir() error {
 // removeDir removes the mailbox, plus empty higher level directories
 func (mb *mbox) removeDir() error {
 	// remove mailbox dir, including index file
+	// Remove the index first: from then on the mailbox is empty for every reader, whatever
+	// happens to the message files.
+	if err := os.Remove(mb.indexPath); err != nil && !os.IsNotExist(err) {
+		return err
+	}
 	verifPoint("rmdir.all.before", mb.path)
 	if err := os.RemoveAll(mb.path); err != nil {
 		return err
